@@ -87,6 +87,7 @@ class TlcResult:
         self.depth = 0
         self.coverage = {}      # action name -> (distinct, generated)
         self.prints = []        # raw lines that look like PrintT tuples
+        self.replays = []       # PrintT("REPLAY " \o ToJson(..)) payloads
         self.ok = False
         self.wall = 0.0
         self.module = ""
@@ -199,7 +200,7 @@ def tlc(module, cfg=None, run_dir=None, workers=8, timeout=900, env=None, xss="5
         m = re.match(r"The depth of the complete state graph search is (\d+)", ln)
         if m:
             r.depth = int(m.group(1))
-        m = re.match(r"<(\w+) line \d+, col \d+ to line \d+, col \d+ of module (\w+)>: (\d+):(\d+)", ln)
+        m = re.match(r"<(\w+) line \d+, col \d+ to line \d+, col \d+ of module (\w+)(?: \([\d ]+\))?>: (\d+):(\d+)", ln)
         if m:
             a = m.group(1)
             d, g = int(m.group(3)), int(m.group(4))
@@ -207,6 +208,11 @@ def tlc(module, cfg=None, run_dir=None, workers=8, timeout=900, env=None, xss="5
             r.coverage[a] = (max(od, d), max(og, g))
         if ln.startswith("<<"):
             r.prints.append(ln)
+        if ln.startswith('"REPLAY '):
+            try:
+                r.replays.append(json.loads(json.loads(ln)[7:]))
+            except Exception:
+                raise ToolError("unparsable REPLAY line from TLC: " + ln[:200])
         m = re.match(r"Error: Invariant (\w+) is violated", ln)
         if m:
             r.violated = m.group(1)
